@@ -3,6 +3,8 @@
 import parglare.tables as T
 from parglare.closure import LR_0, LR_1
 
+import json
+
 from pgverif import cfg, pgx
 from pgverif.props import glrwork
 
@@ -70,6 +72,7 @@ def required(tier):
         "tables.LALR": 1000,
         "tables.SLR": 1000,
         "tables.start=LAYOUT": 200,
+        "tables.in_sequence_on_one_grammar": 200,
         "merge.refused": 20,
         "merge.accepted": 1000,
         "cells_compared": 50000,
@@ -120,6 +123,43 @@ def one_grammar(ctx, mon, name, g):
         check_table(ctx, mon, g, kind, None)
         if layout:
             check_table(ctx, mon, g, kind, layout)
+    if layout:
+        check_sequence(ctx, mon, g, layout)
+
+
+def check_sequence(ctx, mon, g, layout):
+    """Several tables from ONE Grammar object, as a parser for a grammar with a
+    LAYOUT rule builds them (layout table first, then the main one): each must be
+    the table of its own start production and kind."""
+    g2 = with_layout(g, layout)
+    text = g2.text()
+    try:
+        pg = pgx.grammar(text)
+    except Exception:  # noqa: BLE001
+        return
+    seq = [(ctx.rng.choice(["LALR", "SLR"]), st) for st in ctx.rng.choice([["LAYOUT", g.start], ["LAYOUT", g.start], [g.start, "LAYOUT"], ["LAYOUT", g.start, "LAYOUT"]])]
+    for i, (kind, start) in enumerate(seq):
+        case = {"grammar": text, "g": g2.to_json(), "kind": kind, "start": start, "sequence": [list(x) for x in seq[: i + 1]]}
+        ref = cfg.LR1(g2, start)
+        mon.created = 0
+        mon.budget = 50 * (len(ref.states) + 1) * (len(g2.nts) + len(g2.terms) + 1)
+        try:
+            with pgx.watchdog(60), pgx.quiet():
+                table = T.create_table(pg, itemset_type=LR_1 if kind == "LALR" else LR_0, start_production=pg.get_production_id(start), prefer_shifts=False, prefer_shifts_over_empty=False)
+        except StateBudgetExceeded as e:
+            ctx.violation("construction-diverges", case, "table construction does not terminate: %s" % e)
+            return
+        except pgx.CaseTimeout:
+            ctx.inconc("construction watchdog: %r" % text)
+            return
+        except Exception as e:  # noqa: BLE001
+            ctx.violation("construction-raises:" + type(e).__name__, case, "create_table raised %s: %s" % (type(e).__name__, str(e)[:200]))
+            return
+        finally:
+            mon.budget = None
+        ctx.case((text, json.dumps(case["sequence"])), i >= 1, sample={"grammar": text, "sequence": case["sequence"]})
+        ctx.count("tables.in_sequence_on_one_grammar")
+        judge_table(ctx, g2, pg, table, ref, kind, case)
 
 
 def with_layout(g, layout):
@@ -276,6 +316,10 @@ def replay(case, ctx):
         text = case["grammar"]
         ref = cfg.LR1(g, case["start"])
         pg = pgx.grammar(text)
+        # earlier tables of the sequence, on the same Grammar object
+        for kind0, start0 in case.get("sequence", [])[:-1]:
+            with pgx.quiet():
+                T.create_table(pg, itemset_type=LR_1 if kind0 == "LALR" else LR_0, start_production=pg.get_production_id(start0), prefer_shifts=False, prefer_shifts_over_empty=False)
         mon.created = 0
         mon.budget = 50 * (len(ref.states) + 1) * (len(g.nts) + len(g.terms) + 1)
         try:
